@@ -673,6 +673,7 @@ class NumpyTheory:
                 l0 = l1
             ax = z3.And(axs) if len(axs) > 1 else ax
             ax._ax_key = key
+            ax._label = 'theory:rpsum'
             st.pc.append(ax)
         return lambda t: PS(rc.lens, t)
 
